@@ -96,6 +96,12 @@ def general_event(c: dict, holder: str) -> dict:
         U = [np.linalg.qr(rng.randn(s, min(s, R)))[0] for s in shape]
         w = np.array([10.0, 5.0, 2.0])[: min(min(shape), R)]
         U = [u[:, : len(w)] for u in U]
+        if c.get("nonorth"):
+            # oblique components: the off-diagonal entries of the products of the factor Gram matrices matter
+            U = [u + 0.35 * rng.randn(*u.shape) for u in U]
+            U = [u / np.linalg.norm(u, axis=0) for u in U]
+        # the leading vectors do not depend on the overall magnitude of the data
+        w = w * float(c.get("scale", 1.0))
         K = ttb.ktensor(U, w)
         Xd = K.full().data
         if holder == "dense":
@@ -119,12 +125,13 @@ def general_event(c: dict, holder: str) -> dict:
         Gm = Xn @ Xn.T
         ev = np.sort(np.linalg.eigvalsh(Gm))[::-1]
         rho = np.array([v[:, j] @ Gm @ v[:, j] for j in range(v.shape[1])])
-        eig_dev = max(np.linalg.norm(Gm @ v[:, j] - rho[j] * v[:, j]) for j in range(v.shape[1])) / max(1.0, ev[0])
+        top = ev[0] if ev[0] > 0 else 1.0
+        eig_dev = max(np.linalg.norm(Gm @ v[:, j] - rho[j] * v[:, j]) for j in range(v.shape[1])) / top
         sign_ok = all(v[np.argmax(np.abs(v[:, j])), j] > 0 for j in range(v.shape[1]))
         return {"op": "nvecs", "args": a, "ret": {"st": "ok", "real": real, "ncols": int(v.shape[1]),
                 "orth_dev": e9(np.max(np.abs(v.T @ v - np.eye(v.shape[1])))), "eigpair_dev": e9(eig_dev),
                 "decreasing": bool(np.all(np.diff(rho) <= 1e-6 * ev[0])),
-                "dominant_dev": e9(abs(np.sum(rho) - np.sum(ev[: v.shape[1]])) / max(1.0, ev[0])), "sign_rule": bool(sign_ok)}}
+                "dominant_dev": e9(abs(np.sum(rho) - np.sum(ev[: v.shape[1]])) / top), "sign_rule": bool(sign_ok)}}
     except Exception as e:
         return {"op": "nvecs", "args": a, "ret": {"st": "raised", "msg": f"{type(e).__name__}: {e}"[:150]}}
 
@@ -184,8 +191,10 @@ def main(tier: str) -> int:
                     continue
                 for h in HOLDERS:
                     for fs in (True, False):
+                        j = len(cases)
                         cases.append({"cls": "general", "shape": shape, "n": n, "r": r, "flipsign": fs, "holder": h,
-                                      "seed": sd + (n + r) % 4})
+                                      "seed": sd + (n + r) % 4, "nonorth": bool(j % 3 == 1 and h in ("dense", "sparse", "ktensor")),
+                                      "scale": [1.0, 1e-9, 1.0, 1e7][(j // 2) % 4]})
     behaviours = [{"cases": cases[j:j + 30]} for j in range(0, len(cases), 30)]
     from collections import Counter
     out.notes["cases_per_class_holder"] = {f"{k[0]}/{k[1]}": v for k, v in Counter((c["cls"], c["holder"]) for c in cases).items()}
